@@ -200,6 +200,23 @@ def run(ctx):
     if ctx.replay:
         rp = json.load(open(ctx.replay))
         w = rp.get("witness", {})
+        if w.get("mode") == "e2e" and "case" in w:
+            viol, mism = [], []
+            run_e2e(ctx, impl, model, lambda k, n=1: None, viol, mism, set(), [], only=[w["case"]])
+            for what, mode, case, got in viol[:10]:
+                ctx.violation(what, {"mode": mode, "case": case, "impl": got[:4000]})
+            if mism and not viol:
+                ctx.violation("replayed e2e case: model and implementation disagree", {"first": mism[0][:4]}, no_input=True)
+            print("replay e2e: %d oracle violations, %d model/impl mismatches" % (len(viol), len(mism)))
+            return vlib.finish_broken_obligations(ctx)
+        if w.get("mode") == "fromfile" and "case" in w:
+            l = " ".join(w["case"].split()[:3])
+            a = run_lines(impl, [l], "fromfile")
+            b = run_lines(model, [l + " " + a[0].partition(" | ")[2]], "fromfile") if model else ["-"]
+            print("replay fromfile: impl=%s\n model=%s" % (a[0][:2000], b[0][:2000]))
+            if a[0].partition(" | ")[0] != b[0].partition(" d=")[0]:
+                ctx.violation("replayed case still disagrees", w, no_input=True)
+            return vlib.finish_broken_obligations(ctx)
         if "mode" in w and "case" in w and w["mode"] in ("codec", "frombin", "packer"):
             a = run_lines(impl, [w["case"]], w["mode"])
             b = run_lines(model, [w["case"]], w["mode"]) if model else ["-"]
@@ -362,7 +379,7 @@ def gen_e2e(rng, T):
     return "%d %d %d %d %d %d %d %s" % (seed, comp, dpack, tpack, chunk, nfiles, maxsize, " ".join(steps))
 
 
-def run_e2e(ctx, impl, model, bump, viol, mism, nontriv, samples):
+def run_e2e(ctx, impl, model, bump, viol, mism, nontriv, samples, only=None):
     rng = ctx.rng
     T = ctx.thorough()
     cases = []
@@ -373,6 +390,7 @@ def run_e2e(ctx, impl, model, bump, viol, mism, nontriv, samples):
             if ln.startswith("e2e "): cases.append(ln[4:])
     n = 60 if T else 10
     while len(cases) < n: cases.append(gen_e2e(rng, T))
+    if only is not None: cases = list(only)
     path = os.path.join(vlib.BUILD, "C08", "e2e_%d.txt" % os.getpid())
     open(path, "w").write("\n".join(cases) + "\n")
     rc, out, err = vlib.sh2([impl, path, "e2e"], timeout=3000)
